@@ -29,12 +29,13 @@ type c17Case struct {
 	FileNames    []string          `json:"file_names"`     // `name:` of each compose file ("" = none)
 	Var          string            `json:"var,omitempty"`  // variable whose value ends in label `val`
 	// expectations computed by the generator's reference
-	WantErr  bool   `json:"want_err"`
-	WantName string `json:"want_name,omitempty"`
-	WantVal  string `json:"want_val,omitempty"`
-	HasVal   bool   `json:"has_val,omitempty"`
-	Why      string `json:"why,omitempty"`
-	Defined  bool   `json:"defined,omitempty"` // the variable is set (possibly to the empty string) in some layer
+	WantErr        bool   `json:"want_err"`
+	WantName       string `json:"want_name,omitempty"`
+	WantVal        string `json:"want_val,omitempty"`
+	HasVal         bool   `json:"has_val,omitempty"`
+	Why            string `json:"why,omitempty"`
+	Defined        bool   `json:"defined,omitempty"`                // the variable is set (possibly to the empty string) in some layer
+	NameInLaterDoc bool   `json:"name_in_later_document,omitempty"` // `name:` sits in a second `---` document of its file
 }
 
 var nameRe = regexp.MustCompile(`^[a-z0-9][a-z0-9_-]*$`)
@@ -258,6 +259,7 @@ func buildC17(dir string, explicit int, cpnSrc int, cpnValid bool, fileCfg int, 
 	}
 	cs.DotEnv1 = text(dot1)
 	cs.DotEnv2 = text(dot2)
+	cs.NameInLaterDoc = len(emptyTop) > 1 && emptyTop[1]
 	cs.reference(dot1, dot2)
 	return cs
 }
@@ -278,12 +280,15 @@ func c17Check(c *Ctx, cs c17Case) *Failure {
 	var files []string
 	for i, n := range cs.FileNames {
 		doc := ""
-		if n != "" {
+		if n != "" && !cs.NameInLaterDoc {
 			doc += "name: " + yamlDQ(n) + "\n"
 		}
 		doc += fmt.Sprintf("services:\n  svc%d:\n    image: busybox\n    labels:\n      name: \"${COMPOSE_PROJECT_NAME}\"\n", i)
 		if cs.Var != "" && i == 0 {
 			doc += "      val: \"${" + cs.Var + "-UNSET}\"\n"
+		}
+		if n != "" && cs.NameInLaterDoc {
+			doc += "---\nname: " + yamlDQ(n) + fmt.Sprintf("\nservices:\n  svc%d:\n    hostname: h\n", i)
 		}
 		p := filepath.Join(dir, fmt.Sprintf("compose-%d.yaml", i))
 		_ = os.WriteFile(p, []byte(doc), 0o644)
@@ -427,6 +432,9 @@ func TestC17(t *testing.T) {
 					}
 					for fileCfg := 0; fileCfg <= 6; fileCfg++ {
 						cases = append(cases, buildC17(dir, explicit, cpnSrc, valid, fileCfg, 0, false, cpnSrc == 3 && fileCfg%2 == 0, fileCfg%2 == 1))
+						if fileCfg != 0 && (explicit+cpnSrc)%2 == 0 {
+							cases = append(cases, buildC17(dir, explicit, cpnSrc, valid, fileCfg, 0, false, cpnSrc == 3 && fileCfg%2 == 0, fileCfg%2 == 1, false, true))
+						}
 					}
 				}
 			}
@@ -457,6 +465,6 @@ func TestC17(t *testing.T) {
 			}
 			cpnSrc := rapid.IntRange(0, 4).Draw(t, "cpn")
 			return buildC17(dir, rapid.IntRange(0, 2).Draw(t, "explicit"), cpnSrc, rapid.Bool().Draw(t, "valid") || cpnSrc == 0 || cpnSrc == 4,
-				rapid.IntRange(0, 6).Draw(t, "files"), rapid.IntRange(0, 15).Draw(t, "mask"), rapid.Bool().Draw(t, "ref"), rapid.Bool().Draw(t, "def"), rapid.Bool().Draw(t, "first"), rapid.IntRange(0, 3).Draw(t, "emptytop") == 0)
+				rapid.IntRange(0, 6).Draw(t, "files"), rapid.IntRange(0, 15).Draw(t, "mask"), rapid.Bool().Draw(t, "ref"), rapid.Bool().Draw(t, "def"), rapid.Bool().Draw(t, "first"), rapid.IntRange(0, 3).Draw(t, "emptytop") == 0, rapid.IntRange(0, 3).Draw(t, "laterdoc") == 0)
 		}, Check: c17Check})
 }
